@@ -460,7 +460,7 @@ func noFsReadRule(p *Prog, r *Report, id string) {
 // for a method without error result; without the rebuild they stay unrepaired.
 func returnErrorDirtyRule(p *Prog, r *Report, id string) {
 	r.Rule(id, "in generator.ReturnError every store `check.ReturnError = true` is followed, on every path to the next iteration or the return, by `check.Dirty = true`: the method whose signature just changed — including the one being built — is regenerated, so calls emitted before the flip are repaired", 1)
-	fi, sf := needFunc(p, r, "generator.(*generator).ReturnError")
+	fi, _ := needFunc(p, r, "generator.(*generator).ReturnError")
 	if fi == nil {
 		return
 	}
@@ -477,7 +477,14 @@ func returnErrorDirtyRule(p *Prog, r *Report, id string) {
 		return ok && constantBool(k)
 	}
 	n := 0
-	allInstrs(sf, false, func(in ssa.Instruction) {
+	markAll := markAllHelpers(p)
+	var region []*ssa.Function
+	for _, rf := range p.Region("generator.(*generator).ReturnError") {
+		if sf := p.SSAFunc(rf); sf != nil {
+			region = append(region, sf)
+		}
+	}
+	forAllInstrs(region, func(in ssa.Instruction) {
 		if !isFieldStoreTrue(in, "ReturnError") {
 			return
 		}
@@ -486,7 +493,14 @@ func returnErrorDirtyRule(p *Prog, r *Report, id string) {
 		flip := in
 		g := existsPath(in.Block(), instrIndex(in)+1,
 			func(x ssa.Instruction) bool { return isReturn(x) || x == flip },
-			func(x ssa.Instruction) bool { return isFieldStoreTrue(x, "Dirty") })
+			func(x ssa.Instruction) bool {
+				if isFieldStoreTrue(x, "Dirty") {
+					return true
+				}
+				// a helper that marks every method dirty covers this one too
+				c, ok := x.(ssa.CallInstruction)
+				return ok && ssaCalleeObj(c) != nil && markAll[ssaCalleeObj(c).Origin()]
+			})
 		if g != nil {
 			r.Bad(site, p.PosStr(in.Pos()), "after ReturnError is set to true a path reaches "+p.PosStr(g.Pos())+" without setting Dirty: the method keeps a body that was built for the old signature (unchecked call, missing error result)")
 		} else {
@@ -535,18 +549,28 @@ func indexStableRule(p *Prog, r *Report, id string) {
 				continue
 			}
 			fname := fd.Name.Name
-			// locals aliasing a slice of Exact
+			// locals aliasing a slice of Exact (and the key they were read under, when assigned once)
 			alias := map[types.Object]bool{}
+			aliasKey := map[types.Object]string{}
+			nAssign := map[types.Object]int{}
 			ast.Inspect(fd.Body, func(n ast.Node) bool {
 				as, ok := n.(*ast.AssignStmt)
 				if !ok {
 					return true
 				}
-				for i, rhs := range as.Rhs {
-					if _, ok := isExactIndex(rhs); ok && i < len(as.Lhs) {
-						if id0, ok := as.Lhs[i].(*ast.Ident); ok {
-							if o := info.ObjectOf(id0); o != nil {
-								alias[o] = true
+				for i, l := range as.Lhs {
+					if id0, ok := l.(*ast.Ident); ok {
+						if o := info.ObjectOf(id0); o != nil {
+							nAssign[o]++
+						}
+					}
+					if i < len(as.Rhs) {
+						if ix, ok := isExactIndex(as.Rhs[i]); ok {
+							if id0, ok := l.(*ast.Ident); ok {
+								if o := info.ObjectOf(id0); o != nil {
+									alias[o] = true
+									aliasKey[o] = exprString(ix.X) + "[" + exprString(ix.Index) + "]"
+								}
 							}
 						}
 					}
@@ -567,6 +591,12 @@ func indexStableRule(p *Prog, r *Report, id string) {
 										if ix2, ok := isExactIndex(call.Args[0]); ok && exprString(ix2.Index) == exprString(ix.Index) && exprString(ix2.X) == exprString(ix.X) {
 											okForm = true
 										}
+										// append(entries, e) where entries := Exact[k] (same key, assigned once)
+										if id0, ok := ast.Unparen(call.Args[0]).(*ast.Ident); ok {
+											if o := info.ObjectOf(id0); o != nil && nAssign[o] == 1 && aliasKey[o] == exprString(ix.X)+"["+exprString(ix.Index)+"]" {
+												okForm = true
+											}
+										}
 									}
 								}
 							}
@@ -586,7 +616,11 @@ func indexStableRule(p *Prog, r *Report, id string) {
 									r.Bad(fmt.Sprintf("method.%s/Exact[..][..] =", fname), p.PosStr(x.Pos()), "an existing index entry is overwritten: "+why)
 								}
 							} else if id0 := rootIdent(ix.X); id0 != nil && alias[info.ObjectOf(id0)] {
-								r.Bad(fmt.Sprintf("method.%s/alias[..] =", fname), p.PosStr(x.Pos()), "an entry of a slice taken from Exact is overwritten in place")
+								if why := overrideOnlyOnIdlessIndex(p, fd, info); why == "" {
+									r.OK(fmt.Sprintf("method.%s/Exact[..][..] =", fname), p.PosStr(x.Pos()), "in-place override (through a local alias) in a function that returns no IndexID and is only called on the extend index")
+								} else {
+									r.Bad(fmt.Sprintf("method.%s/alias[..] =", fname), p.PosStr(x.Pos()), "an entry of a slice taken from Exact is overwritten in place: "+why)
+								}
 							}
 						}
 					}
@@ -869,14 +903,25 @@ func methodSetRule(p *Prog, r *Report, id string) {
 				return false
 			}
 			nReg := 0
-			ast.Inspect(rs.Body, func(m ast.Node) bool {
-				if call, ok := m.(*ast.CallExpr); ok {
-					if f, ok := calleeObj(info, call).(*types.Func); ok && (f.Name() == "Register" || f.Name() == "RegisterUpdate") && objPkgPath(f) == modPath+"/method" {
-						nReg++
+			var countReg func(n ast.Node, depth int)
+			countReg = func(n ast.Node, depth int) {
+				ast.Inspect(n, func(m ast.Node) bool {
+					if call, ok := m.(*ast.CallExpr); ok {
+						if f, ok := calleeObj(info, call).(*types.Func); ok {
+							if (f.Name() == "Register" || f.Name() == "RegisterUpdate") && objPkgPath(f) == modPath+"/method" {
+								nReg++
+							} else if depth < 2 && objPkgPath(f) == modPath+"/generator" && !f.Exported() {
+								// a private helper the loop body delegates to
+								if h := p.Func(funcKey(f)); h != nil && h.Decl.Body != nil && p.inRegion("generator.setupGenerator", h) {
+									countReg(h.Decl.Body, depth+1)
+								}
+							}
+						}
 					}
-				}
-				return true
-			})
+					return true
+				})
+			}
+			countReg(rs.Body, 0)
 			if nReg >= 1 {
 				r.OK(site, p.PosStr(rs.Pos()), "every method is registered in the lookup index")
 			} else {
@@ -1150,6 +1195,21 @@ func ignoreUnexportedRule(p *Prog, r *Report, id string) {
 					negWhy = p.PosStr(ifs.Pos()) + ": an early exit that is not a `continue` precedes the ignoreUnexported skip: an unexported field could be reported instead of skipped"
 				}
 				continue
+			}
+			// `a || (flag && !exported)`: the other disjuncts only add reasons to skip
+			if ds := disjuncts(g.Cond); len(ds) > 1 {
+				matched := false
+				for _, d := range ds {
+					as := atomsOf(d)
+					if len(as) == 2 && ((strings.HasSuffix(as[0], ".IgnoreUnexported") && strings.HasPrefix(as[1], "!") && strings.HasSuffix(as[1], ".Exported()")) ||
+						(strings.HasSuffix(as[1], ".IgnoreUnexported") && strings.HasPrefix(as[0], "!") && strings.HasSuffix(as[0], ".Exported()"))) {
+						atoms = append(atoms, as...)
+						matched = true
+					}
+				}
+				if matched {
+					continue
+				}
 			}
 			atoms = append(atoms, atomsOf(g.Cond)...)
 		}
@@ -1579,6 +1639,42 @@ func parseOptsOutputPkgRule(p *Prog, r *Report, id string) {
 			return true
 		})
 	}
+	// later assignments to the field
+	for _, fi := range p.Funcs {
+		if relPkg(fi.Pkg.PkgPath) != "config" {
+			continue
+		}
+		info := fi.Pkg.TypesInfo
+		cnt := 0
+		ast.Inspect(fi.Decl, func(nd ast.Node) bool {
+			as, ok := nd.(*ast.AssignStmt)
+			if !ok {
+				return true
+			}
+			for i, l := range as.Lhs {
+				sel, ok := ast.Unparen(l).(*ast.SelectorExpr)
+				if !ok || sel.Sel.Name != "OutputPackagePath" || !isNamed(derefType(info.TypeOf(sel.X)), modPath+"/method", "ParseOpts") {
+					continue
+				}
+				cnt++
+				site := fmt.Sprintf("%s/ParseOpts.OutputPackagePath =#%d", fi.Name(), cnt)
+				okSel := false
+				if i < len(as.Rhs) {
+					if rs, ok := ast.Unparen(as.Rhs[i]).(*ast.SelectorExpr); ok && rs.Sel.Name == "OutputPackagePath" {
+						if nm := namedOf(derefType(info.TypeOf(rs.X))); nm != nil && nm.Obj().Name() == "Converter" {
+							okSel = true
+						}
+					}
+				}
+				if okSel {
+					r.OK(site, p.PosStr(as.Pos()), "<converter>.OutputPackagePath")
+				} else {
+					r.Bad(site, p.PosStr(as.Pos()), "the OutputPackagePath of the parse options is overwritten with something other than the converter's OutputPackagePath: the accessibility check would be made against a package the code is not generated into")
+				}
+			}
+			return true
+		})
+	}
 	if n == 0 {
 		r.Bad("config/ParseOpts literals", "", "no method.ParseOpts literal with OutputPackagePath found in package config")
 	}
@@ -1745,6 +1841,12 @@ func stmtsBefore(list []ast.Stmt, n ast.Node) []ast.Stmt {
 // ---------------------------------------------------------------------------
 // D18: callers of a method whose signature changes are regenerated
 
+func forAllInstrs(fns []*ssa.Function, f func(ssa.Instruction)) {
+	for _, fn := range fns {
+		allInstrs(fn, false, f)
+	}
+}
+
 // markAllHelpers returns the functions of package generator whose body marks every
 // method of the lookup index dirty: a range over getGenMethods()/GetAll() whose body
 // stores Dirty = true without an early leave.
@@ -1829,12 +1931,18 @@ func callersRebuiltRule(p *Prog, r *Report, id string) {
 		}},
 	}
 	for _, s := range sites {
-		fi, sf := needFunc(p, r, s.fn)
+		fi, _ := needFunc(p, r, s.fn)
 		if fi == nil {
 			continue
 		}
 		n := 0
-		allInstrs(sf, false, func(in ssa.Instruction) {
+		var region []*ssa.Function
+		for _, rf := range p.Region(s.fn) {
+			if sf := p.SSAFunc(rf); sf != nil {
+				region = append(region, sf)
+			}
+		}
+		forAllInstrs(region, func(in ssa.Instruction) {
 			if !s.is(in) {
 				return
 			}
